@@ -525,4 +525,58 @@ def scratchName (x : String) : Bool := x.startsWith "__" || ancLike x
 /-- names the compiler binds on its own: constants, temporaries, ancillas -/
 def reservedName (x : String) : Bool := x == "FALSE" || x == "TRUE" || scratchName x
 
+/-! ## The decidable class of the semantic fragment theorem (`QV.C02.C02_fragment_partial`) -/
+
+mutual
+/-- the compound (non-symbol) sub-expressions of an expression, with repetitions: the keys
+`compile_expr` looks up in / adds to the expression cache while compiling it -/
+def compSubs : BExp → List BExp
+  | .sym _ => []
+  | .tt => [.tt]
+  | .ff => [.ff]
+  | .not a => .not a :: compSubs a
+  | .and l => .and l :: compSubsList l
+  | .or l => .or l :: compSubsList l
+  | .xor l => .xor l :: compSubsList l
+  | .ite c t e => [.ite c t e]
+  | .imp a b => [.imp a b]
+def compSubsList : List BExp → List BExp
+  | [] => []
+  | a :: as => compSubs a ++ compSubsList as
+end
+
+mutual
+/-- built from symbols of `inputs` with `Not` / `And` / `Or` / `Xor` only -/
+def overInputs (inputs : List String) : BExp → Bool
+  | .sym n => inputs.contains n
+  | .not a => overInputs inputs a
+  | .and l => overInputsList inputs l
+  | .or l => overInputsList inputs l
+  | .xor l => overInputsList inputs l
+  | _ => false
+def overInputsList (inputs : List String) : List BExp → Bool
+  | [] => true
+  | a :: as => overInputs inputs a && overInputsList inputs as
+end
+
+/-- pairwise different under the structural comparison the cache uses -/
+def distinctB : List BExp → Bool
+  | [] => true
+  | x :: xs => xs.all (fun y => !(x == y)) && distinctB xs
+
+/-- no compound sub-expression occurs twice -/
+def treeLike (e : BExp) : Bool := distinctB (compSubs e)
+
+/-- the decidable class covered by `QV.C02.C02_fragment_partial`: one definition `r = e`; argument names
+pairwise distinct, different from `r` and not reserved (`TRUE`, `FALSE`, `__…`, `anc_…`); `e` built
+from argument symbols with `Not`/`And`/`Or`/`Xor` only (`overInputs`); no compound sub-expression
+of `e` occurs twice under the structural comparison the cache uses (`treeLike`); every requested
+return name is `r` -/
+def inFragment (inputs : List String) (defs : List (String × BExp)) (rets : List String) : Bool :=
+  match defs with
+  | [(r, e)] =>
+    decide inputs.Nodup && inputs.all (fun n => n != r && !reservedName n) &&
+      overInputs inputs e && treeLike e && rets.all (· == r)
+  | _ => false
+
 end QV.Compiler
